@@ -30,6 +30,14 @@
 
 extern parsec_sched_module_t *parsec_current_scheduler;
 
+
+/* start-up ticker: MPI_Init + parsec_init (hwloc discovery, thread creation) can take minutes on a loaded box and are not
+ * the code under test; keep the driver's stall detector quiet until the monitored phase begins (bounded: 15 minutes) */
+static volatile int vf_init_phase = 0; static pthread_t vf_init_thread;
+static void *vf_init_tick(void *a) { (void)a; for (int k = 0; vf_init_phase && k < 9000; k++) { usleep(100000); VF_TICK(); } return NULL; }
+static void vf_init_begin(void) { vf_heartbeat_start(); vf_init_phase = 1; pthread_create(&vf_init_thread, NULL, vf_init_tick, NULL); }
+static void vf_init_end(void) { vf_init_phase = 0; pthread_join(vf_init_thread, NULL); }
+
 #define MAXS 16
 #define MAXRING 64
 #define MAINIDX (MAXS + 1)     /* bookkeeping slot of the main thread (quiescent sweep) */
@@ -59,6 +67,7 @@ static void setup_common(int argc, char **argv, int nstreams, int ntasks)
     ctx = parsec_init(nstreams, &pargc, &pargv);
     if (!ctx) { fprintf(stderr, "parsec_init failed\n"); exit(2); }
     if (have_cpus) sched_setaffinity(0, sizeof cpus, &cpus);   /* parsec_init pinned us to one core; threads would inherit it */
+    vf_init_end();
     if (NULL == parsec_current_scheduler || strcmp(parsec_current_scheduler->component->base_version.mca_component_name, sched_name)) {
         fprintf(stderr, "scheduler %s not installed (got %s)\n", sched_name, parsec_current_scheduler ? parsec_current_scheduler->component->base_version.mca_component_name : "none");
         exit(2);
@@ -393,7 +402,7 @@ int main(int argc, char **argv)
     const char *mode = vf_arg(argc, argv, "--mode", "conserve");
     sched_name = vf_arg(argc, argv, "--sched", "lfq");
     seed = (uint64_t)vf_arg_ll(argc, argv, "--seed", 1);
-    vf_heartbeat_start();
+    vf_init_begin();
     int rc = !strcmp(mode, "order") ? run_order(argc, argv) : run_conserve(argc, argv);
     vf_heartbeat_stop();
     fflush(stdout);
